@@ -207,8 +207,8 @@ func (c RawConfiguration) handleCorrectableCall(ctx context.Context, corr *Corre
 		}
 		if (state.data.ServerStream && len(errs) == state.expectedReplies) ||
 			(!state.data.ServerStream && len(errs)+len(replies) == state.expectedReplies) {
-			if ctx.Err() != nil {
-				// the context ended (which may be why the remaining nodes failed)
+			if failedByContext(ctx, errs) {
+				// the context ended, which is why (some of) the remaining nodes failed
 				corr.set(resp, clevel, QuorumCallError{cause: ctx.Err(), errors: errs, replies: len(replies)}, true)
 				return
 			}
